@@ -457,12 +457,13 @@ theorem orient_same_bond (m : Mol) (n k : Nat) : orient m n k = (n, k) ∨ orien
   unfold orient; split <;> simp
 
 /-- `_inorganic` separates donors from acceptors the way the direction rule needs: no element that chython itself classifies
-as a metal (`is_forming_single_bonds = False`, noble gases aside) is listed, and every usual donor element (C N O F P S Cl Br I and H) is.
+as a metal (`is_forming_single_bonds = False`, noble gases aside) is listed, and EVERY element chython classifies as a non-metal
+(`is_forming_single_bonds = True`) is, except the two recorded acceptors boron and astatine.
 So every bond between such a donor and a metal is oriented donor → metal (`dative_direction`). -/
 theorem inorganic_vs_metals :
     (∀ row ∈ periodicTable, row.single = false → [2, 10, 18, 36, 54, 86, 118].contains row.z = false →
       inorganicZ.contains row.z = false) ∧
-    (∀ z ∈ [1, 6, 7, 8, 9, 15, 16, 17, 35, 53], inorganicZ.contains z = true) ∧
+    (∀ row ∈ periodicTable, row.single = true → [5, 85].contains row.z = false → inorganicZ.contains row.z = true) ∧
     inorganic.length = inorganicZ.length ∧ inorganicZ.Nodup := by decide +kernel
 
 /-! ## 7. shape of the converted molecules: atom order, map numbers, coordinates, neighbour order -/
